@@ -350,11 +350,12 @@ namespace Pistache
         template <typename T>
         ResponseStream& operator<<(ResponseStream& stream, const T& val)
         {
-            Size<T> size;
-
-            std::ostream os(&stream.buf_);
-            os << std::hex << size(val) << crlf;
-            os << val << crlf;
+            // The chunk size has to be the length of the text that is written:
+            // format the value first, then emit it as one chunk
+            std::ostringstream text;
+            text << val;
+            const std::string str = text.str();
+            stream.write(str.data(), static_cast<std::streamsize>(str.size()));
 
             return stream;
         }
